@@ -202,6 +202,7 @@ m("c15-dumbio-out-masks-value",["C15"],"memio.go","\tdio[addr] = value\n","\tdio
 m("c15-set-stores-at-mirror",["C15"],"memio.go","func (mm MapMemory) Set(addr uint16, v uint8) {\n\tmm[addr] = v","func (mm MapMemory) Set(addr uint16, v uint8) {\n\tmm[addr&0x7fff|addr&0x8000] = v",expect="silent",note="identity written in a roundabout way")
 m("c15-get-refactor",["C15"],"memio.go","\tv, ok := mm[addr]\n\tif !ok {\n\t\treturn 0xC7 // RST 0\n\t}\n\treturn v","\tif v, ok := mm[addr]; ok {\n\t\treturn v\n\t}\n\treturn 0xC7",expect="silent")
 
+m("c18-shared-out-buffer",["C18"],"internal/tinycpm/tinycpm.go","\tb := []byte{value}\n\tio.stdout.Write(b)\n","\toutbuf[0] = value\n\tio.stdout.Write(outbuf[:])\n",edits=[{"file":"internal/tinycpm/tinycpm.go","old":"","new":"var outbuf [1]byte\n"}],note="one package-level byte buffer shared by every IO: two machines interleave")
 # ---- C19
 m("c19-u16-big-endian",["C19"],"cmd/cim2bin/cim2bin.go","\tbuf[0] = uint8(u16)\n\tbuf[1] = uint8(u16 >> 8)","\tbuf[0] = uint8(u16 >> 8)\n\tbuf[1] = uint8(u16)")
 m("c19-end-off-by-one",["C19"],"cmd/cim2cas/cim2cas.go","err = writeU16(w, off+uint16(len(b))-1)","err = writeU16(w, off+uint16(len(b)))")
